@@ -254,15 +254,6 @@ func (t *tattach) handle(cs *connState) message {
 	if err != nil {
 		return newErr(err)
 	}
-	qid, valid, attr, err := sf.GetAttr(AttrMaskAll)
-	if err != nil {
-		sf.Close() // Drop file.
-		return newErr(err)
-	}
-	if !valid.Mode {
-		sf.Close() // Drop file.
-		return newErr(linux.EINVAL)
-	}
 
 	// Build a transient reference.
 	root := &fidRef{
@@ -270,10 +261,26 @@ func (t *tattach) handle(cs *connState) message {
 		parent:   nil,
 		file:     sf,
 		refs:     1,
-		mode:     attr.Mode.FileType(),
 		pathNode: cs.server.pathTree,
 	}
 	defer root.DecRef()
+
+	// GetAttr has a read concurrency guarantee on the root's path node.
+	var (
+		qid   QID
+		valid AttrMask
+		attr  Attr
+	)
+	if err := root.safelyRead(func() (err error) {
+		qid, valid, attr, err = sf.GetAttr(AttrMaskAll)
+		return err
+	}); err != nil {
+		return newErr(err)
+	}
+	if !valid.Mode {
+		return newErr(linux.EINVAL)
+	}
+	root.mode = attr.Mode.FileType()
 
 	// Attach the root?
 	if len(t.Auth.AttachName) == 0 {
@@ -1145,7 +1152,9 @@ func (t *tlock) handle(cs *connState) message {
 // walkOne walks zero or one path elements.
 //
 // The slice passed as qids is append and returned.
-func walkOne(qids []QID, from File, names []string, getattr bool) ([]QID, File, AttrMask, Attr, error) {
+//
+// fromNode is the path node of from, which the caller has locked for reading.
+func walkOne(qids []QID, from File, fromNode *pathNode, names []string, getattr bool) ([]QID, File, AttrMask, Attr, error) {
 	nwname := len(names)
 	if nwname > 1 {
 		// We require exactly zero or one elements.
@@ -1173,7 +1182,18 @@ func walkOne(qids []QID, from File, names []string, getattr bool) ([]QID, File, 
 			break
 		}
 		if getattr {
-			_, valid, attr, err = sf.GetAttr(AttrMaskAll)
+			if nwname == 1 {
+				// GetAttr has a read concurrency guarantee on the
+				// path node of the file it is called on, which is
+				// the child here. Locking a child while holding its
+				// parent is the order tunlinkat uses as well.
+				childNode := fromNode.pathNodeFor(names[0])
+				childNode.opMu.RLock()
+				_, valid, attr, err = sf.GetAttr(AttrMaskAll)
+				childNode.opMu.RUnlock()
+			} else {
+				_, valid, attr, err = sf.GetAttr(AttrMaskAll)
+			}
 			if err != nil {
 				// Don't leak the file.
 				sf.Close()
@@ -1215,7 +1235,7 @@ func doWalk(cs *connState, ref *fidRef, names []string, getattr bool) (qids []QI
 		// entry takes this node's lock for writing.
 		if err := ref.safelyRead(func() (err error) {
 			// Clone the single element.
-			qids, sf, valid, attr, err = walkOne(nil, ref.file, nil, getattr)
+			qids, sf, valid, attr, err = walkOne(nil, ref.file, ref.pathNode, nil, getattr)
 			if err != nil {
 				return err
 			}
@@ -1269,7 +1289,7 @@ func doWalk(cs *connState, ref *fidRef, names []string, getattr bool) (qids []QI
 
 			// Pass getattr = true to walkOne since we need the file type for
 			// newRef.
-			qids, sf, valid, attr, err = walkOne(qids, walkRef.file, names[i:i+1], true)
+			qids, sf, valid, attr, err = walkOne(qids, walkRef.file, walkRef.pathNode, names[i:i+1], true)
 			if err != nil {
 				return err
 			}
